@@ -12,6 +12,7 @@ import (
 	"ergo.services/ergo"
 	"ergo.services/ergo/act"
 	"ergo.services/ergo/gen"
+	"ergo.services/ergo/lib"
 	"verifharness/util"
 )
 
@@ -282,6 +283,42 @@ func genPCase(r *rand.Rand) pCase {
 
 var pseq int
 
+// unregDone: pids whose unregisterProcess has returned (hook "unreg.done", build tag verif)
+type unregSet struct {
+	mu   sync.Mutex
+	done map[gen.PID]bool
+}
+
+var unregDone = &unregSet{done: map[gen.PID]bool{}}
+
+func (u *unregSet) hook(label string, obj any) {
+	if label != "unreg.done" {
+		return
+	}
+	if p, ok := obj.(*gen.PID); ok {
+		u.mu.Lock()
+		u.done[*p] = true
+		u.mu.Unlock()
+	}
+}
+
+func (u *unregSet) wait(pid gen.PID, d time.Duration) bool {
+	deadline := time.Now().Add(d)
+	for time.Now().Before(deadline) {
+		u.mu.Lock()
+		ok := u.done[pid]
+		if ok {
+			delete(u.done, pid)
+		}
+		u.mu.Unlock()
+		if ok {
+			return true
+		}
+		time.Sleep(100 * time.Microsecond)
+	}
+	return false
+}
+
 func nItems(acts []action) int {
 	n := 0
 	for _, a := range acts {
@@ -361,6 +398,14 @@ func runPCase(node gen.Node, c pCase) (string, error) {
 		node.Kill(v)
 		expected++
 	}
+	// A queue's length counter goes up BEFORE the pushed item is linked (lib/mpsc.go), so "the mailbox holds n
+	// messages" does not mean the receiver can pop them all yet. Senders are done when their script returns; the
+	// down notifications are pushed inside the victim's unregisterProcess: wait until that has returned.
+	for _, v := range victims {
+		if !unregDone.wait(v, 10*time.Second) {
+			return "", fmt.Errorf("victim %s was not unregistered", v)
+		}
+	}
 	for i := 0; i < c.Logs; i++ {
 		node.Log().Info("vlog-%d-%d", 900, i)
 		expected++
@@ -372,19 +417,33 @@ func runPCase(node gen.Node, c pCase) (string, error) {
 			return "", fmt.Errorf("sender did not finish")
 		}
 	}
-	// wait until the down notifications are in the mailbox too
-	deadline := time.Now().Add(5 * time.Second)
+	// wait until everything (the down notifications too) is in the mailbox, queue by queue: a total count could
+	// be reached by a message that is not part of the scenario while a down notification is still on its way
+	expU, expS, expM := 0, len(victims), 0
+	for _, acts := range c.Senders {
+		for _, a := range acts {
+			switch a.Kind {
+			case 2, 3:
+				expU++
+			case 1:
+				expS++
+			case 0:
+				expM++
+			}
+		}
+	}
+	deadline := time.Now().Add(10 * time.Second)
 	for {
 		info, err := node.ProcessInfo(rpid)
 		if err != nil {
 			return "", err
 		}
 		q := info.MailboxQueues
-		if int(q.Main+q.System+q.Urgent+q.Log) >= expected {
+		if int(q.Urgent) >= expU && int(q.System) >= expS && int(q.Main) >= expM && int(q.Log) >= c.Logs {
 			break
 		}
 		if time.Now().After(deadline) {
-			return "", fmt.Errorf("mailbox has %d of %d expected messages", q.Main+q.System+q.Urgent+q.Log, expected)
+			return "", fmt.Errorf("mailbox has %d/%d/%d/%d messages (urgent/system/main/log), expected %d/%d/%d/%d", q.Urgent, q.System, q.Main, q.Log, expU, expS, expM, c.Logs)
 		}
 		time.Sleep(time.Millisecond)
 	}
@@ -419,7 +478,7 @@ func runPCase(node gen.Node, c pCase) (string, error) {
 		expected += exp2
 		close(rc.release2)
 	}
-	deadline = time.Now().Add(5 * time.Second)
+	deadline = time.Now().Add(10 * time.Second)
 	for {
 		rc.mu.Lock()
 		n := len(rc.log)
@@ -492,6 +551,9 @@ func runParked(n int, out string, replay json.RawMessage) {
 	if err != nil {
 		panic(err)
 	}
+	hook := unregDone.hook
+	lib.VerifHook.Store(&hook)
+	defer lib.VerifHook.Store(nil)
 	var cases []pCase
 	if replay != nil {
 		var c pCase
@@ -499,6 +561,26 @@ func runParked(n int, out string, replay json.RawMessage) {
 			panic(err)
 		}
 		cases = append(cases, c)
+		// development aid: VERIF_PARKED_REPEAT=n runs the replayed case n times and prints the distinct outcomes
+		if rep := os.Getenv("VERIF_PARKED_REPEAT"); rep != "" {
+			var n int
+			fmt.Sscanf(rep, "%d", &n)
+			dist := map[string]int{}
+			for i := 0; i < n; i++ {
+				term, err := runPCase(node, c)
+				if err != nil {
+					term = "ERR " + err.Error()
+				}
+				if j := strings.LastIndex(term, "] ["); j >= 0 {
+					term = term[j:]
+				}
+				dist[term]++
+			}
+			for k, v := range dist {
+				fmt.Println(v, k)
+			}
+			return
+		}
 	} else {
 		r := util.Rng(32)
 		for i := 0; i < n; i++ {
